@@ -357,5 +357,6 @@ MANIFEST_ENTRY = {
     'level_note': ('Electron counting: finite table of environments. Construction geometry: trigonal-2 and tetrahedral-3 with symbolic neighbour offsets '
                    '(exact-real; bond length proved exactly before rounding). 1-bond constructions (rotation about a computed axis) and the '
                    'complement/spacing claims are decided on micro-structures under a symbolic grid translation (and, thorough, in all 24 grid '
-                   'orientations); that the set of hydrogen positions is orientation independent is C04-O4. Distorted covalent geometry is outside the claim.'),
+                   'orientations); that the set of hydrogen positions is orientation independent is C04-O4. Distorted covalent geometry is outside the claim.'
+                   ' O3 decides from the input geometry whether a nitrogen is peptide-bonded; variants: supplied hydrogens, a modified (HETATM) residue in the chain, insertion-coded residues after the chain start.'),
 }
